@@ -14,10 +14,10 @@ class Dispatcher(object):
         return wrap
 
     def get_for(self, fname):
-        try:
-            return self._registry_[fname]
-        except KeyError:
-            raise SyntaxError('Function not found for %s' % fname)
+        # None on a miss: Parser.call_function reports #NAME?  (raising SyntaxError
+        # here was taken by ply as a request for grammar error recovery, so a call
+        # to an unknown function evaluated to a blank instead of an error)
+        return self._registry_.get(fname)
 
     def __iter__(self):
         return iter(registry.values())
